@@ -133,6 +133,14 @@ def run_case(case):
     return {"id": case["id"], "ev": evs}
 
 
+def _extra(rep, rd, tier):
+    from vcommon import drift_tier
+
+    drift_tier(PROP, "LP-algorithm", lambda: __import__("lpalgo").conformance(rep, rd, PROP, {"optimize"}, 200 if tier == "quick" else 4000, seed()))
+    # the conversion to matrices every LP of the library is posed through (spec/Matrix.tla)
+    drift_tier(PROP, "matrix-conversion", lambda: __import__("matrixdrv").conformance(rep, rd, PROP, tier))
+
+
 def main(tier, replay=None):
     return lpev.run(
         PROP, tier, gen_cases(tier), run_case,
@@ -142,7 +150,7 @@ def main(tier, replay=None):
         "certificate (feasible primal point, exact box-free dual), an unboundedness certificate (point + recession ray) or a Farkas "
         "infeasibility certificate and compares the recorded answer; non-trivial = certified class and answer agree",
         owner=lambda ev: PROP, replay=replay,
-        extra=lambda rep, rd: __import__("lpalgo").conformance(rep, rd, PROP, {"optimize"}, 200 if tier == "quick" else 4000, seed()),
+        extra=lambda rep, rd: _extra(rep, rd, tier),
         nontrivial=lambda ev, kind, detail: kind == "ok",
         sig_of=lambda ev, detail: {"detail": detail, "nrows": min(len(ev["rows"]), 1)},
     )
